@@ -58,10 +58,23 @@ class Ctx:
         self.notes: list[str] = []
         self.drv = os.path.join(LEAN, ".lake", "build", "bin", "modeldrv")
 
-    def model(self, lines: list[str], timeout: int = 3600) -> list[str]:
-        """run the compiled Lean model on protocol lines."""
+    def model(self, lines: list[str], timeout: int = 3600, jobs: int = 0) -> list[str]:
+        """run the compiled Lean model on protocol lines (the protocol is stateless per line, so big batches are
+        split into contiguous chunks answered by parallel driver processes)."""
         if not lines:
             return []
+        jobs = jobs or (min(12, os.cpu_count() or 1) if len(lines) >= 64 else 1)
+        if jobs > 1:
+            from concurrent.futures import ThreadPoolExecutor
+
+            # interleave so that expensive neighbours are spread over the workers
+            parts = [lines[i::jobs] for i in range(jobs)]
+            with ThreadPoolExecutor(jobs) as ex:
+                outs = list(ex.map(lambda part: self.model(part, timeout, 1), parts))
+            res = [None] * len(lines)
+            for i, o in enumerate(outs):
+                res[i::jobs] = o
+            return res
         data = ("\n".join(lines) + "\n").encode()
         p = subprocess.run([self.drv], input=data, capture_output=True, timeout=timeout)
         if p.returncode != 0:
